@@ -425,7 +425,8 @@ def _locks_left_held():
         got.append(True)
     t = threading.Thread(target=probe)
     t.start()
-    t.join(5)
+    t.join()            # the probe never blocks (non-blocking acquire), so this cannot hang - and a loaded machine
+    #                     cannot make a free lock look held
     if not got:
       held.append(name)
       setattr(gc, name, type(lock)())
